@@ -8,6 +8,7 @@ import (
 	"os/exec"
 	"path/filepath"
 	"sync"
+	"sync/atomic"
 	"time"
 
 	"github.com/netflix/rend/common"
@@ -270,7 +271,7 @@ func poolChild(a Args) {
 		}
 	}
 	mu.Lock()
-	rec.Emit(map[string]interface{}{"ev": "summary", "hung": hung, "cuts": cuts, "after": after, "conns_accepted": st.Accepted, "secs": time.Since(t0).Seconds()})
+	rec.Emit(map[string]interface{}{"ev": "summary", "hung": hung, "cuts": cuts, "after": after, "conns_accepted": atomic.LoadInt64(&st.Accepted), "secs": time.Since(t0).Seconds()})
 	mu.Unlock()
 	if hung {
 		os.Exit(3)
